@@ -4,6 +4,7 @@ package internal
 
 import (
 	"fmt"
+	"math"
 	"sort"
 	"strings"
 	"testing"
@@ -115,7 +116,7 @@ func c06Check(res *vh.Result) bsVisit {
 					}
 					nr := &c06Ref{v: r.V, cost: r.LoadCost, rec: r}
 					if w.cfg.LoadTTL != 0 {
-						nr.deadline = r.Now + w.cfg.LoadTTL
+						nr.deadline = c03SatAdd(c06LoadTime(r), w.cfg.LoadTTL)
 					} else if cur != nil {
 						nr.deadline = cur.deadline
 					}
@@ -249,6 +250,14 @@ func c06Reordered(w *bsWorld, upto int) bool {
 	return false
 }
 
+// c06LoadTime: a loaded value is stored when its loader returns ("as a Set made then would be")
+func c06LoadTime(r *bsRec) int64 {
+	if r.LoadEnd != 0 {
+		return r.LoadEnd
+	}
+	return r.Now
+}
+
 // c06DeadlineOf replays the reference deadline rule for the value written by call r.
 func c06DeadlineOf(w *bsWorld, r *bsRec) int64 {
 	var dl int64
@@ -274,7 +283,7 @@ func c06DeadlineOf(w *bsWorld, r *bsRec) int64 {
 		case "lget":
 			if x.Stored {
 				if w.cfg.LoadTTL != 0 {
-					dl = x.Now + w.cfg.LoadTTL
+					dl = c03SatAdd(c06LoadTime(x), w.cfg.LoadTTL)
 				} else if !live {
 					dl = 0
 				}
@@ -315,6 +324,12 @@ func c06Cfgs() []*bsCfg {
 				return 1
 			},
 			Ops: []bsOp{S(1, 0), S(2, 1), L(3), L(1)}},
+		// a slow loader: the clock moves by 2 s inside the load, the value it returns lives 1.5 s from then on
+		{Name: "loader-slow", MaxSize: 2, ChanSize: 2, BufSize: 2, Loading: true, LoadCost: 1, LoadTTL: 1500 * 1e6, LoadLat: 2 * sec, NClients: 1, OpsPer: 3, Depth: 7, Ticks: 2, TickNs: 1100 * 1e6, Probe: true,
+			Ops: []bsOp{{"lget", 1, 0, 0}, {"lget", 2, 0, 0}, {"get", 1, 0, 0}}},
+		// a loader TTL that overflows when added to the clock: the deadline saturates ("never"), as ExpireNano does for Set
+		{Name: "loader-huge-ttl", MaxSize: 2, ChanSize: 2, BufSize: 2, Loading: true, LoadCost: 1, LoadTTL: math.MaxInt64 - 1000, NClients: 1, OpsPer: 3, Depth: 6, Ticks: 1, TickNs: 1100 * 1e6, Probe: true,
+			Ops: []bsOp{{"lget", 1, 0, 0}, {"get", 1, 0, 0}, {"set", 2, 1, 0}}},
 		{Name: "loader-ttl", MaxSize: 2, ChanSize: 2, BufSize: 2, Loading: true, LoadCost: 1, LoadTTL: sec, NClients: 2, OpsPer: 2, Depth: 9, Ticks: 1, TickNs: 1100 * 1e6, Advs: []int64{1100 * 1e6}, MaxAdv: 1, Probe: true,
 			Ops: []bsOp{S(1, 1), L(1), L(2), D(1)}},
 	}
